@@ -703,7 +703,11 @@ class Calls(Suite):
         fn = make_fn(case["params"], ret=ret, raises=EXC[f["raises"]] if "raises" in f else None,
                      set_switch=case["set_switch"], switch=sw)
         try:
-            sw.on()      # decoration is independent of the switch
+            # decoration is independent of the switch: half of the cases (a fixed function of the case) are decorated
+            # while checking is switched off, so a wrapper that reads the switch when it is built is seen
+            import zlib
+            deco_on = bool(zlib.crc32(json.dumps(case, sort_keys=True, default=str).encode()) & 1)
+            (sw.on if deco_on else sw.off)()
             deco = {"raises": m.SchemaRaises, "mock": m.SchemaMock}[case["deco"]]
             if arg_specs is None:
                 wrapped = deco(return_spec=return_spec)(fn)      # the constructor's default
